@@ -1,20 +1,96 @@
 """What MANIFEST.json claims.  CLAIMED[pid] = level/text/note/technique; NOT_APPLICABLE[pid] = reason."""
 
+_T = "CBMC code contracts on the real C functions (goto-cc, goto-instrument --dfcc --enforce-contract / --replace-call-with-contract / --apply-loop-contracts, cbmc); "
+_TB = _T + "bounded groups: one concrete shape per instance, all contents symbolic"
+
 CLAIMED = {
     "C19": {
         "level": "proof",
-        "text": "Every obligation is unbounded or a completely enumerated finite domain: the word kernels (bit reversal, 64x64 parity, the three mask macros, lesser-LSB, spread/shrink) are loop-free code checked by CBMC over their full input domain against closed-form contracts (ghost bit index); m4ri_gray_code is checked for all l<=16 and all arguments; m4ri_build_code is verified under its contract for every k=1..16 with its data loops closed by mechanically inserted loop invariants (no unwinding of the 2^k iterations); mzd_make_table is checked against the subset-sum spec with the code book built by the real routine.",
-        "design_ref": "DESIGN.md 3/C19",
-        "note": "Trusted: CBMC 6.11 (front end, dfcc, SAT back end), the spec macros in contracts/c19_contracts.h. mzd_make_table groups are bounded in the row width (stated in the evidence); everything else has no bound. Quick tier covers k<=14 of the code book, thorough all 16.",
-        "technique": "CBMC code contracts (goto-instrument --dfcc --enforce-contract, loop invariants via --apply-loop-contracts) on the real functions; full-domain symbolic inputs",
+        "text": "Every obligation is unbounded or a completely enumerated finite domain: the word kernels (bit reversal, 64x64 parity, the three mask macros, lesser-LSB, spread/shrink) are loop-free code checked by CBMC over their full input domain against closed-form contracts (ghost bit index); m4ri_gray_code is checked for all l<=16 and all arguments; m4ri_build_code is verified under its contract for every k with its data loops closed by mechanically inserted loop invariants (no unwinding of the 2^k iterations).",
+        "design_ref": "DESIGN.md 3/C19 and 8",
+        "note": "Trusted: CBMC 6.11 (front end, dfcc, SAT back ends), the spec macros in contracts/c19_contracts.h. Quick tier covers k<=14 of the code book, thorough all 16. mzd_make_table (the consumer of the code book) is exercised only inside the bounded M4RM instances of C01, not under its own contract.",
+        "technique": _T + "full-domain symbolic inputs, loop invariants for m4ri_build_code",
     },
+    "C14": {
+        "level": "proof",
+        "text": "Inductive representation invariants: every operation of the block cache (m4ri_mmc_malloc/calloc/free/cleanup) and of the header cache (mzd_t_malloc/mzd_t_free) is verified from an arbitrary invariant-satisfying state (the eviction cursor is driven to an arbitrary position by the real code), so preservation and the per-operation post-conditions (fresh zeroed storage, disjointness from live blocks, no double caching, windows never free their parent, nothing retained after cleanup) hold after every history; loops have constant bounds (16/64) and are unwound completely.",
+        "design_ref": "DESIGN.md 3/C14",
+        "note": "mzd_init / mzd_init_window / mzd_free groups fix a box for rows/cols (stated per group, bounded); cached block sizes <= 4096 bytes in the constructed state; trusted: CBMC's malloc/free model and its memory-leak check.",
+        "technique": "assertion harnesses over the real mmc.c / mzd.c from a non-deterministically constructed invariant state, complete unwinding of constant-bound loops (cbmc)",
+    },
+    "C20": {
+        "level": "proof",
+        "text": "With an allocator that may fail at every call (cbmc --malloc-may-fail --malloc-fail-null) each allocation wrapper and each function that calls malloc/realloc directly either does not return (m4ri_die) or returns complete objects; a mechanical scan of the sources shows every other allocation goes through those wrappers, so a failure at any position of any scenario is covered without enumerating positions; scenario harnesses (transpose, copy, permutation, submatrix, concat) run the real routines with pointer checks on.",
+        "design_ref": "DESIGN.md 3/C20",
+        "note": "m4ri_die is taken by its body (vfprintf + abort); CBMC's models of abort/posix_memalign are trusted; libpng/stdio allocation sites are outside (C18 not claimed).",
+        "technique": "assertion harnesses with CBMC's failing allocator + syntactic scan of raw allocation sites",
+    },
+    "C13": {
+        "level": "model_checking",
+        "text": "Function contracts (cell-wise value + frame over the whole parent block) for row swap, column swap in a row range, row add / clear from a column, bit read/write/xor/clear and the six permutation applications are enforced on the real code for an enumerated envelope of concrete shapes (owned, window at word offset 0, window at odd word offset; every width class), with all matrix contents, parent contents and scalar arguments symbolic. Bounded: nothing is claimed beyond the enumerated shapes.",
+        "design_ref": "DESIGN.md 3/C13",
+        "note": "shape envelope listed in the evidence; permutations fully symbolic up to length 20, identity-except-3-symbolic-entries for 70/130 columns; strip loop of the column-permutation kernel executes once in every shape.",
+        "technique": _TB,
+    },
+    "C17": {
+        "level": "model_checking",
+        "text": "mzd_equal, mzd_cmp, mzd_is_zero, mzd_first_zero_row, mzd_find_pivot are enforced against abstract-matrix specs (spec loops over cells) for enumerated shapes incl. windows whose parent bits around the view are symbolic; antisymmetry/transitivity of mzd_cmp and read-after-write as lemma harnesses on the real code.",
+        "design_ref": "DESIGN.md 3/C17",
+        "note": "bounded shapes (rows<=4, up to 4 words); all contents symbolic.",
+        "technique": _TB,
+    },
+    "C08": {
+        "level": "model_checking",
+        "text": "mzd_add/_mzd_add (all aliasing forms, every width-specialised case), mzd_copy, mzd_set_ui, mzd_submatrix (aligned and unaligned), mzd_concat, mzd_stack, mzd_extract_u/l and mzd_transpose (every kernel size class up to 70x70 / 200 columns) are enforced against cell-wise contracts with destination supplied (frame over its whole block) or allocated (dimensions, zero padding), sources unchanged.",
+        "design_ref": "DESIGN.md 3/C08",
+        "note": "bounded shapes; the >512 recursive transpose splitter is not reached.",
+        "technique": _TB,
+    },
+    "C09": {
+        "level": "model_checking",
+        "text": "The view dimension of the contracts of C13/C17/C08/C01: every group whose operand is a window (word offset 0 and odd word offset, parent wider, last word shared) with symbolic parent content; frame clause over every word of the parent block including the bits beyond ncols; sources bit-for-bit unchanged.",
+        "design_ref": "DESIGN.md 3/C09",
+        "note": "bounded shapes; alignment faults are not modelled by CBMC (stated); non-interference is covered by the value clause being a function of view cells only.",
+        "technique": _TB,
+    },
+    "C10": {
+        "level": "model_checking",
+        "text": "Zero padding of owned results (VP_ROW_CLEAN on every allocated result), arbitrary prior destination contents (destinations symbolic), heap independence (calloc zeroing proved in C14 from arbitrary recycled content): carried by the contracts of C08/C13/C01 and the allocator groups.",
+        "design_ref": "DESIGN.md 3/C10",
+        "note": "inherits the bounds of the carrier groups.",
+        "technique": _TB,
+    },
+    "C11": {
+        "level": "model_checking",
+        "text": "(a) 20 public wrappers: with incompatible dimensions the call does not return and touches no operand word (dimensions symbolic, operand storage dangling) -- unbounded; (b) the Strassen-Winograd orchestration meets every callee's shape pre-condition, windows lie inside their parents, headers are balanced, for all sizes and cutoffs -- unbounded (loop invariant); (c) CBMC's built-in bounds/pointer/shift/overflow obligations on the kernel contract groups -- bounded shapes.",
+        "design_ref": "DESIGN.md 3/C11",
+        "note": "vector alignment traps are not modelled by CBMC; dimensions <= 2^29 assumed in layer S.",
+        "technique": _T + "dangling-operand wrapper harnesses; modular shape contracts with --replace-call-with-contract",
+    },
+    "C01": {
+        "level": "model_checking",
+        "text": "Layer B: cubic routes, vector-times-matrix route, Four-Russians (tail tables), the Strassen front end below the split incl. views and the squaring dispatch, against the GF(2) product spec for concrete small shapes with all operand bits symbolic; layer S: the Strassen-Winograd recursion for all sizes and cutoffs (shape, window containment, callee pre-conditions, header balance, termination measure).",
+        "design_ref": "DESIGN.md 3/C01",
+        "note": "the algebra of the Bodrato sequence above the split, the M4RM 8-table main loop (thorough, scalar configuration only), mzd_mul_mp and DJB are not decided.",
+        "technique": _TB + "; modular shape contracts for the recursion",
+    },
+    "C02": {"level": "model_checking", "text": "mzd_echelonize_naive, mzd_top_echelonize_m4ri and mzd_echelonize_m4ri on 3x4/3x5/2x66 fully symbolic matrices: returned rank, exact RREF (full) or REF with the same row space, against a spec-side textbook elimination.",
+            "design_ref": "DESIGN.md 3/C02", "note": "toy shapes only; PLUQ-based and hybrid routes not decided in the quick tier.", "technique": "bounded model checking of the real entry points against spec-side linear algebra (cbmc, unwinding refinement)"},
+    "C03": {"level": "model_checking", "text": "_mzd_pluq_naive and _mzd_ple_naive on 3x5/4x3/2x66 fully symbolic matrices with junk P/Q on entry: rank, LAPACK ranges, P L U Q = A certificate, zero storage, column rank profile.",
+            "design_ref": "DESIGN.md 3/C03", "note": "the Russian and recursive routines are not decided (measured intractable); thorough tier attempts 2x3.", "technique": "bounded model checking of the real routines against a certificate (cbmc, unwinding refinement)"},
+    "C04": {"level": "model_checking", "text": "the four public TRSM routines on 4x4 and 5x5 triangles with symbolic junk in the opposite triangle and on the diagonal, right-hand sides of 3 and 66 columns, views: T*X == B resp. X*T == B, T unchanged.",
+            "design_ref": "DESIGN.md 3/C04", "note": "base cases only; Russian (n>64) and recursive regimes not reached in the quick tier.", "technique": "bounded model checking of the real routines against spec-side products"},
+    "C05": {"level": "model_checking", "text": "mzd_invert_naive, mzd_inv_m4ri on every invertible 3x3 matrix, mzd_trtri_upper on every unit upper triangular 4x4 matrix: A*B == B*A == I, A unchanged.",
+            "design_ref": "DESIGN.md 3/C05", "note": "n <= 4.", "technique": "bounded model checking of the real routines against spec-side products"},
+    "C06": {"level": "model_checking", "text": "mzd_solve_left with the inconsistency check on all systems of shapes 2x2, 2x3, 3x2, 1x2: verdict == rank test incl. padding rows, A*X == B when solvable.",
+            "design_ref": "DESIGN.md 3/C06", "note": "_mzd_pluq replaced by the library's own _mzd_pluq_naive when compiling solve.c (stated substitution).", "technique": "bounded model checking against spec-side rank/product"},
+    "C07": {"level": "model_checking", "text": "mzd_kernel_left_pluq on all matrices of shapes 2x3, 3x3, 3x2: NULL iff full column rank, A*K == 0, rank K == n-r.",
+            "design_ref": "DESIGN.md 3/C07", "note": "mzd_pluq replaced by _mzd_pluq_naive when compiling solve.c.", "technique": "bounded model checking against spec-side rank/product"},
 }
 
-_todo = "check not implemented yet in this round (planned, see DESIGN.md 3); nothing is claimed"
 NOT_APPLICABLE = {
     "C15": "thread interleavings: CBMC's contract instrumentation is sequential; no contract within reach expresses or decides race freedom of 2..16 threads (DESIGN.md 3/C15)",
     "C16": "OpenMP pragmas have no semantics in goto-cc and mp.c is empty in the pinned configuration; a contract proof of the sequential text would say nothing about sections/schedules (DESIGN.md 3/C16)",
+    "C12": "no check of its own yet: the configuration dimension (SSE2 off, small caches) is only exercised by thorough-tier groups of C01/C02/C03; not claimed (DESIGN.md 3/C12)",
+    "C18": "file I/O needs assumed contracts for libpng/stdio; not built in this round, nothing claimed (DESIGN.md 3/C18)",
 }
-for _p in ["C01", "C02", "C03", "C04", "C05", "C06", "C07", "C08", "C09", "C10", "C11", "C12", "C13", "C14", "C17", "C18", "C20"]:
-    if _p not in CLAIMED:
-        NOT_APPLICABLE[_p] = _todo
